@@ -215,7 +215,9 @@ class Reference:
             U = self.U_of_t(self.grid[k])
         return hamiltonian(self.kind, self.amp[k], self.det[k], self.ph[k], U, self.d, self.h_extra)
 
-    def run(self):
+    def run(self, step=None):
+        """step(A, v) -> exp(A) v ; default scipy expm (exact).  A model of the implementation's Krylov
+        stopping rule can be passed to decide whether a deviation is explained by a known finding."""
         st = self.state
         for k in range(len(self.grid) - 1):
             H = self.h_step(k)
@@ -224,9 +226,9 @@ class Reference:
             if self._full_collapse:
                 Lv = liouvillian(H, self._full_collapse)
                 D = H.shape[0]
-                st = (sla.expm(Lv * dt) @ st.reshape(-1)).reshape(D, D)
+                st = (sla.expm(Lv * dt) @ st.reshape(-1) if step is None else step(Lv * dt, st.reshape(-1))).reshape(D, D)
             else:
-                st = sla.expm(-1j * H * dt) @ st
+                st = sla.expm(-1j * H * dt) @ st if step is None else step(-1j * H * dt, st)
             self.states[k + 1] = st.copy()
         return self
 
